@@ -581,6 +581,13 @@ func newCtx(files []fileSpec, target int) (*parsley.Context, *text.File) {
 	offs, lens := make([]int, len(files)), make([]int, len(files))
 	for i, f := range files {
 		tfile := text.NewFile(f.name, f.raw)
+		// every second file (by the parity of its length, so that a case replays exactly) has been LOOKED AT on its own
+		// before it is placed in the set — a location asked of the file object while it still sits at its default base:
+		// what a file answers after placement must not depend on what was asked of it before (lazily built tables)
+		if len(f.raw)%2 == 0 {
+			tfile.Position(tfile.Len())
+			tfile.Position(0)
+		}
 		fset.AddFile(tfile)
 		offs[i], lens[i] = int(tfile.Pos(0)), tfile.Len()
 		if i == target {
